@@ -1761,6 +1761,10 @@ def family_nesting(tier):
             progs += [[x] for x in containers([[c]], [[simple[2]]])]
     # scoping: declarations inside blocks do not leak, outer declarations are reused
     progs += [
+        # variable names that differ only in letter case are different variables
+        [ASSIGN('step', I(1)), ASSIGN('Step', I(2)), ASSIGN('z', BIN('*', V('step'), V('Step')))],
+        [ASSIGN('Step', I(1)), ASSIGN('step', STR), ASSIGN('STEP', V('Step')), ASSIGN('z', V('step'))],
+        [('selfrom', 'any', 'n', 'A', None, True), ('selfrom', 'many', 'N', 'A', None, True), ('foreach', 'k', 'N', [ASSIGN('x', F('n', 'Num'))], False)],
         [('if', c0, [ASSIGN('x', I(1))], [], [ASSIGN('x', STR)], [False]), ASSIGN('x', TRUE)],
         [ASSIGN('x', I(1)), ('if', c0, [ASSIGN('x', I(2)), ASSIGN('y', V('x'))], [], None, [False]), ASSIGN('y', STR)],
         [('while', c1, [('create', 'n', 'A'), ('if', c0, [('delete', 'n'), ('break',)], [], None, [False])], False), ('create', 'n', 'B')],
